@@ -202,11 +202,17 @@ class Oracle:
 
     def __init__(self):
         self.proc = None
+        self.pid = None
         self.cache = {}
 
     def start(self):
         import subprocess
+        if self.proc is not None and self.pid != os.getpid():
+            # inherited through fork() from the process that replayed the corpus:
+            # sharing one pipe between processes would mix up the answers
+            self.proc = None
         if self.proc is None:
+            self.pid = os.getpid()
             env = dict(os.environ)
             self.proc = subprocess.Popen(
                 [sys.executable, '-m', 'yv.c11world'], stdin=subprocess.PIPE,
